@@ -64,6 +64,15 @@ def nextID (s : MemorySession) : UInt16 × MemorySession :=
   (id, { s with counter := c })
 def savePacket (s : MemorySession) (d : Direction) (p : Packet) : MemorySession := s.setStore d ((s.store d).save p)
 def lookupPacket (s : MemorySession) (d : Direction) (id : UInt16) : Option Packet := (s.store d).lookup id
+/-- the loop of the broker's `Client.nextID` with `n` tries left: `NextID` until an id comes up that the
+    outgoing store does not hold.  Out of tries: `(0, ErrPacketIDsExhausted)` — 0 is never a packet id. -/
+def freshIDAux : Nat → MemorySession → UInt16 × MemorySession
+  | 0, s => (0, s)
+  | n + 1, s =>
+    if (s.lookupPacket .outgoing (s.nextID).1).isNone then s.nextID else freshIDAux n (s.nextID).2
+/-- broker/client.go `Client.nextID`: the next packet id that no stored outgoing packet uses (at most
+    65535 tries: every id there is); the id 0 stands for `ErrPacketIDsExhausted` -/
+def freshID (s : MemorySession) : UInt16 × MemorySession := freshIDAux 65535 s
 def deletePacket (s : MemorySession) (d : Direction) (id : UInt16) : MemorySession := s.setStore d ((s.store d).delete id)
 def allPackets (s : MemorySession) (d : Direction) : List Packet := (s.store d).all
 def reset (_ : MemorySession) : MemorySession := {}
